@@ -204,11 +204,6 @@ def observe(root, nodes):
             kept[name] = None
     # the lists are READ only after every other traversal below (of the sub-trees, of find_node): a traversal handed out earlier stays
     # that traversal, whatever is traversed next
-    for n in nodes[1:4]:
-        try:
-            n.pre_order, n.post_order
-        except Exception:  # noqa: BLE001
-            pass
     obs['heap'] = [[i, None if n.parent is None else ix(n.parent), bool(n.flag)] for i, n in enumerate(nodes)]
     finds = []
     for p in range(0, len(nodes) + 2):
@@ -224,6 +219,11 @@ def observe(root, nodes):
         except Exception as ex:  # noqa: BLE001
             finds.append({'other': 'raised ' + type(ex).__name__})
     obs['find'] = finds
+    for n in nodes[1:4]:
+        try:
+            n.pre_order, n.post_order
+        except Exception:  # noqa: BLE001
+            pass
     for name in ('pre_order', 'post_order'):
         try:
             obs[name] = None if kept[name] is None else [ix(n) for n in kept[name]]
